@@ -19,9 +19,11 @@ RULE = (
     "sort/reverse/*=/reorder, indexes -5..5, slices over {None,-4..4}^2 x step {None,1,2,-1}) from lists of 0..4 "
     "entities for count_from 0/1 and reorder_on_append on/off, attached to a relationship; the bare class for the "
     "slice-assignment loop; plus random histories of 2..8 operations incl. re-appending removed entities. proxies: every "
-    "single list / set / dict operation from small pre-states plus random histories; after the last operation the "
-    "session is flushed and the rows are read back. non-trivial = the case has an operation that changes membership "
-    "or order"
+    "single list / set / dict operation from small pre-states, whole-collection assignment obj.proxy = x for every "
+    "old/new pair of small grids (overlapping keys with different values included) plus random histories with "
+    "assignments; after the last operation the session is flushed and the rows are read back. quick tier: pre-states "
+    "of 2-3 members, slices sampled (seeded), 45 random rounds; thorough: the whole grids, 3000 rounds. non-trivial = "
+    "the case has an operation that changes membership or order"
 )
 TRUSTED = [
     "hand-written Gallina transcription of OrderingList (own methods) composed with the _list_decorators wrapper "
@@ -82,6 +84,10 @@ ANCHORS = [
     ("lib/sqlalchemy/ext/associationproxy.py", "_AssociationDict.pop"),
     ("lib/sqlalchemy/ext/associationproxy.py", "_AssociationDict.popitem"),
     ("lib/sqlalchemy/ext/associationproxy.py", "_AssociationDict.update"),
+    ("lib/sqlalchemy/ext/associationproxy.py", "_AssociationSingleItem._bulk_replace"),
+    ("lib/sqlalchemy/ext/associationproxy.py", "_AssociationSet._bulk_replace"),
+    ("lib/sqlalchemy/ext/associationproxy.py", "_AssociationDict._bulk_replace"),
+    ("lib/sqlalchemy/ext/associationproxy.py", "AssociationProxyInstance._set"),
 ]
 
 LMETH = {
@@ -171,7 +177,7 @@ def _install_small_shards():
         return
     orig = coqrun.run_cases
 
-    def run_cases(bdir, mod, fn, pairs, shard=80, jobs=12, timeout=900):
+    def run_cases(bdir, mod, fn, pairs, shard=100, jobs=12, timeout=900):
         return orig(bdir, mod, fn, pairs, shard=shard, jobs=jobs, timeout=timeout)
 
     run_cases._small_shards = True
@@ -327,10 +333,14 @@ def _rand_proxy_case(rng, fam):
                 ops.append([11, rng.choice([0, 1, 2, 3])])
             else:
                 ops.append([t])
+        if rng.random() < 0.4:
+            ops.insert(rng.randint(0, len(ops)), [14, [rng.randint(0, 7) for _ in range(rng.randint(0, 3))]])
         return {"in": [1, init, ops], "kind": "proxy-list-random"}
     if fam == 2:
         c = c38._rand_set_case(rng)
         ops = [o for o in c["in"][2] if not (len(o) > 1 and isinstance(o[1], list) and o[1][0] in (2, 3))]
+        if rng.random() < 0.4:
+            ops.insert(rng.randint(0, len(ops)), [20, sorted(set(rng.randint(0, 7) for _ in range(rng.randint(0, 4))))])
         return {"in": [2, c["in"][1], ops], "kind": "proxy-set-random"}
     c = c38._rand_dict_case(rng)
     ops = []
@@ -340,21 +350,40 @@ def _rand_proxy_case(rng, fam):
         if o[0] == 6:
             o = [6, o[1], []]
         ops.append(o)
+    if rng.random() < 0.4:
+        m = {rng.randint(0, 5): rng.randint(0, 6) for _ in range(rng.randint(0, 4))}
+        ops.insert(rng.randint(0, len(ops)), [20, [[k, v] for k, v in m.items()]])
     init = list({k: v for k, v in c["in"][1]}.items())
     return {"in": [3, [list(kv) for kv in init], ops], "kind": "proxy-dict-random"}
 
 
+ASSIGN_LIST = [[], [7], [1, 2], [2, 1, 7]]
+ASSIGN_SET = [[], [0], [0, 3], [1, 2, 3]]
+ASSIGN_DICT = [[], [[0, 7]], [[0, 0]], [[0, 7], [5, 8]], [[1, 9], [0, 0]], [[5, 5]], [[2, 3], [1, 1], [0, 4]]]
+
+
+def _pick(rng, items, k):
+    items = list(items)
+    return items if len(items) <= k else rng.sample(items, k)
+
+
 def gen_cases(rng, tier):
+    """quick tier: every operation kind from a few pre-states, slices sampled (seeded), the families that carry the
+    known findings and whole-collection assignment kept in full; thorough: the whole grids"""
     cases = []
     quick = tier != "thorough"
     # ordering list, attached: single operations
-    for n in range(0, 5):
+    for n in ((2, 3) if quick else range(0, 5)):
         ops = _ol_single_ops(n)
         if quick:
-            ops = [o for o in ops if o[0] not in (5, 7)] + rng.sample([o for o in ops if o[0] in (5, 7)], 60)
+            ops = [o for o in ops if o[0] not in (5, 7)] + rng.sample([o for o in ops if o[0] in (5, 7)], 24)
         for k, op in enumerate(ops):
             base, roa = (k + n) % 2, (k // 2 + n) % 2
             cases.append({"in": [0, [base, roa, 1, n], [op]], "kind": "ol-single"})
+    if quick:
+        for op in ([0, 7], [1, 0, 7], [3, None], [4, 0, 7], [5, [None, None, None], [7]], [8, [7, 8]], [10], [14]):
+            cases.append({"in": [0, [1, 0, 1, 0], [op]], "kind": "ol-single"})
+            cases.append({"in": [0, [0, 1, 1, 1], [op]], "kind": "ol-single"})
     # re-appending / re-inserting a removed (still positioned) entity
     for roa in (0, 1):
         for base in (0, 1):
@@ -364,32 +393,46 @@ def gen_cases(rng, tier):
             cases.append({"in": [0, [base, roa, 1, 3], [[11], [14]]], "kind": "ol-sort-reorder"})
             cases.append({"in": [0, [base, roa, 1, 3], [[12], [1, 0, 7]]], "kind": "ol-sort-reorder"})
     # the bare class: the slice loop of OrderingList.__setitem__
-    for n in range(0, 4):
+    for n in ((3,) if quick else range(0, 4)):
         ops = [o for o in _ol_single_ops(n) if o[0] == 5]
         if quick:
-            ops = rng.sample(ops, 80)
+            ops = rng.sample(ops, 24)
         for op in ops:
             cases.append({"in": [0, [0, 0, 0, n], [op]], "kind": "ol-raw-slice"})
         for op in ([0, 7], [1, 1, 7], [3, None], [4, 0, 7], [6, 0], [7, [0, 2, None]], [14]):
             cases.append({"in": [0, [1, 0, 0, n], [op]], "kind": "ol-raw-single"})
     # proxies: single operations
-    for init in ([], [1], [1, 2], [0, 1, 0], [3, 1, 2, 1]):
+    for init in (([1, 2], [3, 1, 2, 1]) if quick else ([], [1], [1, 2], [0, 1, 0], [3, 1, 2, 1])):
         ops = _pl_single_ops()
         if quick:
-            ops = [o for o in ops if o[0] not in (6, 8)] + rng.sample([o for o in ops if o[0] in (6, 8)], 50)
+            ops = [o for o in ops if o[0] not in (6, 8)] + rng.sample([o for o in ops if o[0] in (6, 8)], 16)
         for op in ops:
             cases.append({"in": [1, init, [op]], "kind": "proxy-list-single"})
-    for mask in range(8):
+    for mask in ((0, 5, 7) if quick else range(8)):
         init = [i for i in range(3) if mask >> i & 1]
         for op in _ps_single_ops():
             c = {"in": [2, init, [op]], "kind": "proxy-set-single"}
             if op[0] == 3 and len(init) >= 2:
                 c["model"] = False
             cases.append(c)
-    for init in ([], [[0, 0]], [[0, 0], [1, 1]], [[0, 0], [1, 1], [2, 0]]):
+    for init in (([[0, 0]], [[0, 0], [1, 1], [2, 0]]) if quick else ([], [[0, 0]], [[0, 0], [1, 1]], [[0, 0], [1, 1], [2, 0]])):
         for op in _pd_single_ops():
             cases.append({"in": [3, init, [op]], "kind": "proxy-dict-single"})
-    nrand = 3000 if tier == "thorough" else 300
+    # whole-collection assignment obj.proxy = x: every old / new pair of the small grids (kept in full in both tiers),
+    # followed by a second assignment or a mutation
+    for init in ([], [1], [1, 2], [3, 1, 2, 1]):
+        for v in ASSIGN_LIST:
+            cases.append({"in": [1, init, [[14, v]]], "kind": "proxy-assign"})
+        cases.append({"in": [1, init, [[14, [1, 7]], [0, 5], [14, [7]]]], "kind": "proxy-assign"})
+    for mask in range(8):
+        init = [i for i in range(3) if mask >> i & 1]
+        for v in ASSIGN_SET:
+            cases.append({"in": [2, init, [[20, v]]], "kind": "proxy-assign"})
+    for init in ([], [[0, 0]], [[0, 0], [1, 1]], [[0, 0], [1, 1], [2, 0]]):
+        for m in ASSIGN_DICT:
+            cases.append({"in": [3, init, [[20, m]]], "kind": "proxy-assign"})
+        cases.append({"in": [3, init, [[20, [[0, 7], [1, 1]]], [0, 1, 5], [20, [[1, 6]]]]], "kind": "proxy-assign"})
+    nrand = 3000 if tier == "thorough" else 45
     for i in range(nrand):
         cases.append(_rand_ol_case(rng, True))
         if i % 3 == 0:
@@ -717,7 +760,14 @@ def _run_proxy(case):
     for op in ops:
         rc, ret = 0, None
         try:
-            ret = app(p, op)
+            if fam == 1 and op[0] == 14:
+                u.kwl = list(op[1])
+            elif fam == 2 and op[0] == 20:
+                u.kset = set(op[1])
+            elif fam == 3 and op[0] == 20:
+                u.kd = {k: v for k, v in op[1]}
+            else:
+                ret = app(p, op)
             if ret is NotImplemented:
                 rc = 20
         except AssertionError:
@@ -832,6 +882,23 @@ def _oracle_proxy(case, obs):
                     return _fail("set proxy pop() from %s left %s (code %d)" % (before, got, o[0]), fam=fam, k=k, op=op,
                                  pre=before, got=got, rc=o[0], want=before, want_rc=0)
                 ref.discard(next(iter(gone)))
+        elif (fam == 1 and op[0] == 14) or (fam != 1 and op[0] == 20):
+            # whole-collection assignment: plain `x = value` semantics
+            if fam == 1:
+                ref[:] = list(op[1])
+            elif fam == 2:
+                ref.clear()
+                ref.update(op[1])
+            else:
+                new = {k: v for k, v in op[1]}
+                got = view(o)
+                # the assigned MAPPING must be there; key order after an assignment is the proxy's own
+                # (kept keys first) - adopt it for the following operations
+                ref.clear()
+                if {k: v for k, v in got} == new:
+                    ref.update((k, v) for k, v in got)
+                else:
+                    ref.update(new)
         else:
             try:
                 ret = app(ref, op)
